@@ -37,7 +37,7 @@ LEVEL = "exploration"
 EXHAUSTIVE = True
 RULE = (
     "npz: space_dim 1..3 x series x scalar x dtype {bool,uint8,uint16,float32,float64} x time info {none, relative time, dates, "
-    "dates+reference, dates+reference+explicit time} x name {None,str} x origin {default,custom} (thorough: x shape form {base, all-ones, "
+    "dates+reference, dates+reference+explicit time} x name {None,str} x origin {default,custom} x shape form {base, extents not recovered from voxel size x count (5,11,35 voxels over 1.7,0.1,0.7; one-slice series)} (thorough: + {all-ones, "
     "thin} x range form {(3,),(1,),(2,2),()}), two save/load cycles (Path, str) + a second generation; bytes: {png,tiff} x {8,16} bit x "
     "{grey, single channel, colour} x shapes x encoders {cv2, hand-written (tiff: little/big endian)} x kwargs {none, dimensions+name}; "
     "optical: {uint8,uint16} x suffix {png,tif,(tiff)} x colour space {RGB,BGR} x shapes x payload {provenance, extremes} incl. "
@@ -55,9 +55,13 @@ ASSUMPTIONS = [
 
 DTYPES = ["bool", "uint8", "uint16", "float32", "float64"]
 TIMEINFO = ["none", "time", "dates", "dates+ref", "both"]
-SPACE_SHAPE = {"base": (2, 3, 4), "ones": (1, 1, 1), "thin": (1, 3, 2)}
-TIME_NUM = {"base": 3, "ones": 1, "thin": 2}
+SPACE_SHAPE = {"base": (2, 3, 4), "ones": (1, 1, 1), "thin": (1, 3, 2), "ulp": (5, 11, 35)}
+TIME_NUM = {"base": 3, "ones": 1, "thin": 2, "ulp": 1}
 DIMS = [1.5, 0.5, 2.0]
+# extents that are NOT recovered from (extent / n) * n in floating point: a round trip must carry the
+# stored extent, not one recomputed from the voxel size (series of this form have one slice)
+DIMS_BY_FORM = {"ulp": [1.7, 0.1, 0.7]}
+assert all((d / n) * n != d for d, n in zip(DIMS_BY_FORM["ulp"], SPACE_SHAPE["ulp"]))
 CUSTOM_ORIGIN = [3.0, -2.0, 5.5]
 BYTE_SHAPES = {"quick": [(1, 1), (2, 3), (5, 4)], "thorough": [(1, 1), (2, 3), (5, 4), (1, 7), (7, 1), (3, 3), (16, 16)]}
 OPT_SHAPES = {"quick": [(1, 1), (2, 3), (5, 4)], "thorough": [(1, 1), (2, 3), (5, 4), (16, 9)]}
@@ -80,7 +84,7 @@ def describe(tier):
 def cases(tier):
     out = []
     # ---- npz lattice
-    forms = ["base"] if tier == "quick" else ["base", "ones", "thin"]
+    forms = ["base", "ulp"] if tier == "quick" else ["base", "ulp", "ones", "thin"]
     for form in forms:
         for dim in (1, 2, 3):
             for series in (False, True):
@@ -261,7 +265,7 @@ def _npz_build(case):
     sshape = SPACE_SHAPE[form][:dim]
     nt = TIME_NUM[form]
     shape = tuple(sshape) + ((nt,) if series else ()) + (() if scalar else tuple(case["range"]))
-    dims = [DIMS[a] for a in range(dim)]
+    dims = [DIMS_BY_FORM.get(form, DIMS)[a] for a in range(dim)]
     kw = {"space_dim": dim, "series": series, "scalar": scalar, "dimensions": list(dims)}
     exp = {"space_dim": dim, "indexing": "ijk"[:dim], "dimensions": list(dims), "series": series, "scalar": scalar, "name": case["name"]}
     if case["name"] is not None:
